@@ -39,6 +39,7 @@ type c03Case struct {
 	Rule     string      `json:"rule"`
 	Codec    string      `json:"codec,omitempty"` // json | protobuf | octet-stream
 	Gzip     bool        `json:"gzip,omitempty"`
+	Chunked  bool        `json:"chunked,omitempty"` // body of unknown length (Content-Length -1)
 	Negative bool        `json:"negative,omitempty"`
 }
 
@@ -201,6 +202,10 @@ func (e *c03Env) build(tc *c03Case) (req *http.Request, want protoreflect.Messag
 	if len(body) > 0 {
 		req.Body = io.NopCloser(bytes.NewReader(body))
 		req.ContentLength = int64(len(body))
+		if tc.Chunked {
+			req.ContentLength = -1
+			req.TransferEncoding = []string{"chunked"}
+		}
 	} else {
 		req.Body = http.NoBody
 	}
@@ -316,10 +321,7 @@ func (g *c03Gen) pairs(thorough bool) {
 		if len(vs) > 2 && !thorough {
 			return []textVal{vs[1], vs[len(vs)-1]}
 		}
-		if len(vs) > 3 {
-			return []textVal{vs[1], vs[2], vs[len(vs)-1]}
-		}
-		return vs
+		return vs // thorough: every boundary value of the field
 	}
 	step := 1
 	if !thorough {
@@ -343,7 +345,11 @@ func (g *c03Gen) pairs(thorough bool) {
 			f1Nested := strings.HasPrefix(f1.path, "nested.")
 			f2Nested := strings.HasPrefix(f2.path, "nested.")
 			for _, v1 := range pick(f1) {
-				for _, v2 := range pick(f2)[:1] {
+				v2s := pick(f2)
+				if !thorough {
+					v2s = v2s[:1]
+				}
+				for _, v2 := range v2s {
 					a1 := c03Assign{Field: f1.path, Text: v1.texts[0], Value: v1.name}
 					a2 := c03Assign{Field: f2.path, Text: v2.texts[0], Value: v2.name}
 					mk := func(c1, c2, rule, codec string, gz bool) {
@@ -366,6 +372,60 @@ func (g *c03Gen) pairs(thorough bool) {
 						mk("query", "body", "n", "json", false)
 						mk("queryjson", "body", "n", "protobuf", false)
 					}
+				}
+			}
+		}
+	}
+}
+
+// triples (thorough): three different fields, one in the path, one in the query, one in the
+// body — every ordered triple whose first field is path-bindable, one value each, rotating
+// through the fields' value tables so that all values take part.
+func (g *c03Gen) triples() {
+	fields := g.env.fields
+	n := 0
+	for i, f1 := range fields {
+		if _, ok := g.env.pathIdx[f1.path]; !ok {
+			continue
+		}
+		if strings.HasPrefix(f1.path, "nested.") {
+			continue
+		}
+		for j, f2 := range fields {
+			for k, f3 := range fields {
+				if i == j || j == k || i == k {
+					continue
+				}
+				excl := func(a, b fieldRef) bool {
+					o1, o2 := a.leaf().ContainingOneof(), b.leaf().ContainingOneof()
+					return o1 != nil && o1 == o2
+				}
+				if excl(f1, f2) || excl(f1, f3) || excl(f2, f3) {
+					continue
+				}
+				n++
+				v1s, v2s, v3s := valuesOf(f1), valuesOf(f2), valuesOf(f3)
+				var v1 textVal
+				ok := false
+				for d := 0; d < len(v1s); d++ {
+					if c := v1s[(n+d)%len(v1s)]; c.pathSafe[0] {
+						v1, ok = c, true
+						break
+					}
+				}
+				if !ok {
+					continue
+				}
+				v2, v3 := v2s[n%len(v2s)], v3s[(n/3)%len(v3s)]
+				a1 := c03Assign{Field: f1.path, Text: v1.texts[0], Value: v1.name, Channel: "path"}
+				a2 := c03Assign{Field: f2.path, Text: v2.texts[0], Value: v2.name, Channel: "query"}
+				a3 := c03Assign{Field: f3.path, Text: v3.texts[0], Value: v3.name, Channel: "body"}
+				if strings.HasPrefix(f3.path, "nested.") && !strings.HasPrefix(f2.path, "nested.") {
+					codec := "json"
+					if n%2 == 0 {
+						codec = "protobuf"
+					}
+					g.cases = append(g.cases, c03Case{Assigns: []c03Assign{a1, a2, a3}, Rule: "pn", Codec: codec, Gzip: n%4 < 2})
 				}
 			}
 		}
@@ -395,7 +455,7 @@ func c03Key(tc *c03Case) string {
 	for _, a := range tc.Assigns {
 		as = append(as, fmt.Sprintf("%s=%q@%s", a.Field, a.Text, a.Channel))
 	}
-	return fmt.Sprintf("rule=%s codec=%s gzip=%v neg=%v %s", tc.Rule, tc.Codec, tc.Gzip, tc.Negative, strings.Join(as, " & "))
+	return fmt.Sprintf("rule=%s codec=%s gzip=%v chunked=%v neg=%v %s", tc.Rule, tc.Codec, tc.Gzip, tc.Chunked, tc.Negative, strings.Join(as, " & "))
 }
 
 // c03Class groups cases for reporting (one replay per class and oracle).
@@ -408,12 +468,12 @@ func c03Class(tc *c03Case) string {
 		}
 		as = append(as, fmt.Sprintf("%s@%s", f, a.Channel))
 	}
-	return fmt.Sprintf("%s|%s|%v|%s", tc.Rule, tc.Codec, tc.Gzip, strings.Join(as, "&"))
+	return fmt.Sprintf("%s|%s|%v|%v|%s", tc.Rule, tc.Codec, tc.Gzip, tc.Chunked, strings.Join(as, "&"))
 }
 
 func runC03(c *Ctx) {
 	r := c.Run
-	r.Rule("ComplexRequest (15 scalar kinds, enum, bytes, repeated scalars, nested message, oneof members, wrappers, Timestamp/Duration/FieldMask) × rules {no body, body '*', body 'nested', path variable on every bindable field ± body} × every field × every boundary value × every spelling × every channel (path, query by proto name, query by JSON name, body JSON/protobuf/octet-stream ± gzip); pairs of fields in different channels (quick: all ordered pairs, 2 values; thorough: all, 3 values); negative: texts invalid under every reading, in query and path; distinct = (rule, codec, channels, field) classes")
+	r.Rule("ComplexRequest (15 scalar kinds, enum, bytes, repeated scalars, nested message, oneof members, wrappers, Timestamp/Duration/FieldMask) × rules {no body, body '*', body 'nested', path variable on every bindable field ± body} × every field × every boundary value × every spelling × every channel (path, query by proto name, query by JSON name, body JSON/protobuf/octet-stream ± gzip, with known and with unknown Content-Length); pairs of fields in different channels (quick: all ordered pairs, 2 × 1 values; thorough: all ordered pairs × every value of both fields, plus every ordered triple path+query+nested-body); negative: texts invalid under every reading, in query and path; distinct = (rule, codec, channels, field) classes")
 	r.Assume("not demanded: NaN/Infinity, 'True'/'1' for bool, leading '+'/zeros, exponent or '.0' forms for integers, mixed base64 alphabets, empty or quoted wrapper text, Content-Type with parameters, JSON null, empty sub-message as protobuf body")
 	env0, err := newC03Env()
 	if err != nil {
@@ -424,8 +484,23 @@ func runC03(c *Ctx) {
 	nSingles := len(g.cases)
 	g.pairs(c.Thorough())
 	nPairs := len(g.cases) - nSingles
+	nTriples := 0
+	if c.Thorough() {
+		g.triples()
+		nTriples = len(g.cases) - nSingles - nPairs
+	}
+	// every case that carries a body, again with the body's length unknown to the server
+	nBefore := len(g.cases)
+	for i := 0; i < nBefore; i++ {
+		if tc := g.cases[i]; tc.Codec != "" {
+			tc.Chunked = true
+			g.cases = append(g.cases, tc)
+		}
+	}
+	nChunked := len(g.cases) - nBefore
 	g.negatives()
-	r.Set("cases", map[string]int{"singles": nSingles, "pairs": nPairs, "negatives": len(g.cases) - nSingles - nPairs})
+	r.Set("chunked_variants", nChunked)
+	r.Set("cases", map[string]int{"singles": nSingles, "pairs": nPairs, "triples": nTriples, "negatives": len(g.cases) - nSingles - nPairs - nTriples - nChunked})
 
 	envs := make([]*c03Env, explore.Workers)
 	done := explore.ParallelFor(len(g.cases), func() bool { return r.TooManyViolations() || r.Expired() }, func(w, i int) {
